@@ -37,7 +37,7 @@ def comp(src):
             except OSError:
                 need = True; break
     if need:
-        r = subprocess.run([toks[0]] + flags + ['-I' + H, '-MD', '-MF', dep, '-o', obj, '-c', src], cwd=IB, capture_output=True, text=True)
+        r = subprocess.run([toks[0]] + flags + ['-fno-access-control', '-I' + H, '-MD', '-MF', dep, '-o', obj, '-c', src], cwd=IB, capture_output=True, text=True)
         if r.returncode != 0:
             return (src, r.stderr[-6000:])
     return (src, None)
